@@ -263,7 +263,7 @@ def run(model, tier="quick"):
 
 
 MANIFEST = {
-    "technique": "formula and ledger identity of the valuation chain (account, six markets, lent-LP transfer pairing) against references (value numbering)",
+    "technique": "formula and ledger identity of the valuation chain (account, six markets, lent-LP transfer pairing) against references (value numbering), memo typestate rules (Aave caches, Deribit valuation memo)",
     "claim": "The account status and each market's net value equal, as canonical expressions on every path, the statement's "
              "sums (with the conversion price keyed by the market being converted and each asset priced by its own token), "
              "and the four sites that lend / return / redeem an LP position keep 'vault holds it' and 'Uniswap skips it' in "
